@@ -15,6 +15,7 @@ OVERLAY = {
     PKG + "/zz_c11_gen_verif_test.go": "harness/overlay/relay/c11_gen_verif_test.go",
     PKG + "/zz_c11_main_verif_test.go": "harness/overlay/relay/c11_main_verif_test.go",
     PKG + "/zz_c11_client_verif_test.go": "harness/overlay/relay/c11_client_verif_test.go",
+    PKG + "/zz_c11_batch_verif_test.go": "harness/overlay/relay/c11_batch_verif_test.go",
 }
 
 
@@ -127,7 +128,15 @@ def group_key(cfg, ops, toks, g):
     """identity of one failing event g = [902, index, clause, peer/circuit]"""
     idx, cl, k = g[1], g[2], g[3]
     if idx >= len(ops):
-        return "C11:%s" % g
+        # the trailing batch of concurrent requests (code 19): identity = clause + the requests
+        tail = []
+        if 19 in toks:
+            i = len(toks) - 1 - toks[::-1].index(19)
+            while i >= 0 and not (toks[i] == 19 and i + 3 < len(toks) and 0 < toks[i + 2] <= 64):
+                i -= 1
+            tail = toks[i:i + 4 + 7 * toks[i + 2]] if i >= 0 else []
+        caps = "%d/%d/%d/%d" % (cfg["maxrsvp"], cfg["maxip"], cfg["maxasn"], cfg["maxcirc"])
+        return "C11:concurrent-batch:clause=%d:k=%d:caps=%s:batch=%s" % (cl, k, caps, ",".join(map(str, tail[:40])))
     c, tt, a, o, s = ops[idx]
     n = cfg["n"]
     if cl == 2 and c == 12 and o[1] == 1:
@@ -189,7 +198,8 @@ if __name__ == "__main__":
         "mocknet streams ignore deadlines and have no scopes: the relay's streams are wrapped by the harness (deadline-honouring Read, real rcmgr stream scope opened/closed like the swarm does, WithNoDial honoured); yamux/QUIC stream deadlines themselves are not exercised",
         "a half-closed circuit whose remaining direction flows TOWARDS an endpoint that reset/disconnected is kept by the code until the next write or the deadline (the relay only notices on the side it reads from); the model tears it down at once and the generator never produces that state (safeToDrop)",
         "cryptography (record.Seal / ConsumeEnvelope) enters through the correspondence only: every granted voucher is verified with the real code against the relay's key; the model states the fields",
-        "hypotheses of the theorems: 0 <= ReservationTTL and 0 <= caps only (the one-address and no-race hypotheses of the first round are gone with the fixes 648cd92 and 6afff63 in /repo; their former counterexamples are corpus cases: directed histories (a),(b),(d) of the harness and corpus_*_fixed in Properties.v)",
+        "concurrency: half of the random histories end with a batch of 2-5 RESERVE/CONNECT requests launched at once (racing on r.mx, the counters and the constraints); the interleaving is the scheduler's, so the batch is judged at quiescence by the monitor only (caps, lifecycle, CONNECT conditions incl. MaxCircuits at quiescence, counters/tags/memory, limits), not replayed on the model",
+        "hypotheses of the theorems: 0 <= ReservationTTL and 0 <= caps only ; the headline c11_monitor_accepts_model additionally needs peers among 1..n and a monotone clock with >= 1 ms per operation, checked on every recorded event (ev_okb) (the one-address and no-race hypotheses of the first round are gone with the fixes 648cd92 and 6afff63 in /repo; their former counterexamples are corpus cases: directed histories (a),(b),(d) of the harness and corpus_*_fixed in Properties.v)",
     ]
     standard_flow(ctx, dict(
         consts=consts,
